@@ -78,6 +78,23 @@ def delegateOf (db : Db) (s : JState) (a : Addr) : Option Addr :=
   | some (s1, _) => (s1.state a).bind fun acc => acc.info.code.bind db.delegate
   | none => none
 
+/-- the accounts / slots the undo of an entry dereferences are present -/
+def refsOk (s : JState) : Entry → Prop
+  | .accountWarmed a => (s.state a).isSome
+  | .accountTouched a => (s.state a).isSome
+  | .accountDestroyed a t _ _ => (s.state a).isSome ∧ (s.state t).isSome
+  | .balanceTransfer a t _ => (s.state a).isSome ∧ (s.state t).isSome
+  | .nonceChange a => (s.state a).isSome
+  | .accountCreated a => (s.state a).isSome
+  | .codeChange a => (s.state a).isSome
+  | .storageWarmed a k => ∃ acc, s.state a = some acc ∧ (acc.storage k).isSome
+  | .storageChanged a k _ => ∃ acc, s.state a = some acc ∧ (acc.storage k).isSome
+  | .transientChange _ _ _ => True
+
+/-- every entry in the journal refers to accounts / slots that are present in the state map: what makes
+`journal_revert`'s `unwrap`s safe. True of `JournaledState::new`, preserved by every operation (Proofs/JournalRefs) -/
+def JRefs (s : JState) : Prop := ∀ l, l ∈ s.journal → ∀ e, e ∈ l → refsOk s e
+
 /-! ## histories -/
 
 inductive Op
